@@ -39,11 +39,12 @@ AllDevs == {"relu_clip_negmax", "clip_clip_disjoint", "relu_clip_no_dtype_raise"
             "materialize_allowzero", "slice_split_odd", "split_num_outputs_pre_opset18",
             "flatten_zero_dim", "reshape_matmul_ignores_inner_shapes", "matmul_add_gemm_bias_shape",
             "gemm_matmul_add_ignores_attrs", "gemm_matmul_add_bias_shape", "pad_convinteger_zero_point",
-            "autopad_ignores_dilation", "conv_affine_scalar_rank", "bn_gemm_beta"}
+            "autopad_ignores_dilation", "conv_affine_scalar_rank", "bn_gemm_beta",
+            "hardswish_int_dtype", "hardswish_pre_opset14", "hardswish_const_rank"}
 AllFamilies == {"relus_clips", "min_max", "no_op", "dropout", "cast_cos", "scatter_static", "scatter_dynamic",
                 "expand_binop", "materialize", "collapse_slices", "casts", "no_op_expand", "reshape_reshape", "flatten",
                 "slice_split", "transposes", "unsqueeze2", "squeeze_reshape", "matmul_reshape", "matmul_add_gemm",
-                "gemm_matmul_add", "optional_bias", "pad_conv", "conv_affine", "batchnorm"}
+                "gemm_matmul_add", "optional_bias", "pad_conv", "conv_affine", "batchnorm", "hardswish"}
 Big == Menu = "thorough"
 
 RAISE == [dt |-> "RAISE", shape |-> <<>>, data |-> <<>>]
@@ -1077,6 +1078,96 @@ BN_Rewrite(q, devs) ==
 BN_Unknown(q) == q.pkind \in {"ginput", "ginit"} \/ q.wkind \in {"ginput", "ginit"}
 
 -----------------------------------------------------------------------------
+(* hardswish: _fuse_hardswish.py  (session 6).  Three rules, commute = True:                      *)
+(*   hswish : Div(Mul(Clip(Add(x, 3), 0, 6), x), 6)  -> HardSwish(x)                              *)
+(*   hsig   : Div(Clip(Add(x, 3), 0, 6), 6)          -> HardSigmoid<alpha = 1/6, beta = 0.5>(x)   *)
+(*   fromhs : Mul(HardSigmoid<alpha, beta>(x), x)    -> HardSwish(x)                              *)
+(* Values in 1/6000.  A constant is <<nominal, class>>: "exact" (the literal), "eps" (inside      *)
+(* is_singleton_value's rel_tol 1e-4 / np.isclose but not the literal), "near" (just outside).    *)
+(* A host with a non-literal constant computes something else than the literal one: its meaning   *)
+(* carries the marker +1 (as the eps of no_op), and the harness does not compare its values with  *)
+(* the spec (HS_Exact).                                                                           *)
+HS_P(r, lo, hi, b, d, bs, dvs, xs, k, dt, os, mo, ao, sx, ex, al, be) ==
+   [rule |-> r, lo |-> lo, hi |-> hi, b |-> b, d |-> d, bs |-> bs, dvs |-> dvs, xs |-> xs, ckind |-> k, dt |-> dt,
+    opset |-> os, mord |-> mo, aord |-> ao, samex |-> sx, extra |-> ex, alpha |-> al, beta |-> be]
+HS_E(v) == <<v, "exact">>
+HS_Base(r) == HS_P(r, HS_E(0), HS_E(6), HS_E(3), HS_E(6), <<>>, <<>>, <<7>>, "init", "f32", 18, "cx", "xb", TRUE, "none", "none", "none")
+HS_With(q, f, v) == [q EXCEPT ![f] = v]
+HS_AC == {"hswish", "hsig"}
+HS_Params(z) ==
+   \* (a) every constant: the literal, inside the tolerance, just outside it, another value
+   {HS_With(HS_With(HS_Base(r), f, c), "dt", dt) : r \in HS_AC, dt \in {"f32"},
+        f \in {"hi", "b", "d"}, c \in {HS_E(6), HS_E(3), <<6, "eps">>, <<3, "eps">>, <<6, "near">>, <<3, "near">>, HS_E(5), HS_E(2)}}
+   \cup {HS_With(HS_Base(r), "lo", c) : r \in HS_AC, c \in {HS_E(0), HS_E(1), HS_E(-1)}}
+   \* (b) shapes of the bias and the divisor against the shape of x
+   \cup {HS_With(HS_With(HS_With(HS_Base(r), "bs", bs), "dvs", dvs), "xs", xs) : r \in HS_AC,
+        bs \in {<<>>, <<1>>, <<1, 1>>}, dvs \in {<<>>, <<1>>, <<1, 1>>}, xs \in {<<>>, <<7>>, <<1, 7>>}}
+   \* (c) operand kind of the bias, element type, declared opset
+   \cup {HS_With(HS_With(HS_With(HS_Base(r), "ckind", k), "dt", dt), "opset", os) : r \in HS_AC, k \in Kinds,
+        dt \in {"f32", "i32"}, os \in {13, 14, 18}}
+   \* (d) operand orders, a Mul by another value, extra consumers of the intermediates
+   \cup {HS_With(HS_With(HS_With(HS_With(HS_Base(r), "mord", mo), "aord", ao), "samex", sx), "extra", ex) : r \in HS_AC,
+        mo \in {"cx", "xc"}, ao \in {"xb", "bx"}, sx \in BOOLEAN, ex \in {"none", "add", "clip"}}
+   \* (e) HardSigmoid with its attributes given / left at their defaults (alpha 0.2, beta 0.5)
+   \cup {HS_With(HS_With(HS_With(HS_With(HS_With(HS_With(HS_With(HS_Base("fromhs"), "alpha", al), "beta", be), "mord", mo), "samex", sx),
+                 "dt", dt), "opset", os), "extra", ex) :
+        al \in {"none", "sixth", "sixth_eps", "fifth"}, be \in {"none", "half", "p6"}, mo \in {"cx", "xc"}, sx \in BOOLEAN,
+        dt \in {"f32"}, os \in {13, 14, 18}, ex \in {"none", "clip"}}
+HS_Float(q) == q.dt = "f32"      \* onnxruntime has no double kernels for HardSigmoid / HardSwish: float hosts only
+HS_Consts(q) == <<q.lo, q.hi, q.b, q.d>>
+HS_Literal(q) == IF q.rule = "fromhs" THEN q.alpha # "sixth_eps" ELSE \A i \in 1..4 : HS_Consts(q)[i][2] = "exact"
+HS_Exact(q) == HS_Literal(q)
+HS_X(q) == XT(q.dt, q.xs)
+HS_Y(q) == IF q.samex THEN HS_X(q) ELSE Map1(HS_X(q), q.dt, LAMBDA v : v + 1)      \* the other graph input y = x + 1
+HS_Mark(t, q) == IF HS_Literal(q) THEN t ELSE Map1(t, q.dt, LAMBDA v : v + 1)
+\* HardSigmoid<A/6000, B/6000>(x) in 1/6000
+HS_Sig(x, A, B, dt) == Map1(x, dt, LAMBDA v : Clamp(A * v + B, 0, 6000))
+HS_Alpha(q) == CASE q.alpha = "fifth" -> 1200 [] q.alpha = "none" -> 1200 [] OTHER -> 1000
+HS_Beta(q) == IF q.beta = "p6" THEN 3600 ELSE 3000
+\* integer hosts exist (Add / Clip / Mul / Div on int32, Clip from opset 12): integer division truncates
+HS_HostValid(q) == /\ (q.rule = "fromhs" => HS_Float(q))
+                   /\ (~HS_Float(q) => HS_Literal(q))
+                   /\ (q.rule = "hsig" => q.samex /\ q.mord = "cx")            \* no Mul in that pattern
+                   /\ (q.rule # "fromhs" => q.extra # "hsig")
+                   /\ (q.rule = "fromhs" => q.aord = "xb" /\ q.extra # "add")
+HS_Lhs(q) ==
+   IF ~HS_HostValid(q) THEN ERR
+   ELSE IF q.rule = "fromhs"
+   THEN HS_Mark(Map2(HS_Sig(HS_X(q), HS_Alpha(q), HS_Beta(q), q.dt), HS_Y(q), q.dt, LAMBDA s, v : (s * v)), q)
+   ELSE LET a == Map2(HS_X(q), ConstT(q.dt, q.bs, q.b[1]), q.dt, LAMBDA v, c : v + c)
+            c == Map1(a, q.dt, LAMBDA v : Clamp(v, q.lo[1], q.hi[1]))
+            m == IF q.rule = "hswish" THEN Map2(c, HS_Y(q), q.dt, LAMBDA u, v : u * v) ELSE c
+            r == Map2(m, ConstT(q.dt, q.dvs, q.d[1]), q.dt,
+                      LAMBDA u, dv : IF HS_Float(q) THEN TruncDiv(6000 * u, dv) ELSE 6000 * TruncDiv(u, dv))
+        IN IF q.lo[1] > q.hi[1] THEN ERR ELSE HS_Mark(r, q)
+HS_Match(q, devs) == q.samex /\ q.extra = "none"
+\* is_singleton_value(v, expected, rtol = 1e-4): a one-element constant within the tolerance
+HS_Is(c, v, devs) == c[1] = v /\ (c[2] = "exact" \/ (c[2] = "eps" /\ "const_tolerance" \in devs))
+HS_Check(q, devs) ==
+   IF q.rule = "fromhs"
+   THEN IF ~(q.alpha = "sixth" \/ (q.alpha = "sixth_eps" /\ "const_tolerance" \in devs)) THEN "fail"
+        ELSE IF q.beta # "half" THEN "fail"
+        \* design: HardSwish exists from opset 14 on
+        ELSE IF q.opset < 14 /\ "hardswish_pre_opset14" \notin devs THEN "fail"
+        ELSE "ok"
+   ELSE IF ~HasConstValue(q.ckind, devs) THEN "fail"
+   ELSE IF ~(HS_Is(q.lo, 0, devs) /\ HS_Is(q.hi, 6, devs) /\ HS_Is(q.b, 3, devs) /\ HS_Is(q.d, 6, devs)) THEN "fail"
+   \* design: HardSwish / HardSigmoid are defined on floating-point tensors only
+   ELSE IF ~HS_Float(q) /\ "hardswish_int_dtype" \notin devs THEN "fail"
+   ELSE IF q.rule = "hswish" /\ q.opset < 14 /\ "hardswish_pre_opset14" \notin devs THEN "fail"
+   \* design: a one-element bias / divisor of higher rank than x extends the rank of the result
+   ELSE IF BroadcastShape(BroadcastShape(q.xs, q.bs), q.dvs) # q.xs /\ "hardswish_const_rank" \notin devs THEN "fail"
+   ELSE "ok"
+HS_Rewrite(q, devs) ==
+   LET x == HS_X(q)
+       sw == Map1(x, q.dt, LAMBDA v : Clamp(1000 * v + 3000, 0, 6000) * v)
+       sg == Map1(x, q.dt, LAMBDA v : Clamp(1000 * v + 3000, 0, 6000))
+       \* the graph output keeps the rank the chain had: a replacement of lower rank contradicts the declared type
+       keeps == q.rule = "fromhs" \/ BroadcastShape(BroadcastShape(q.xs, q.bs), q.dvs) = q.xs
+   IN IF q.rule = "hsig" THEN Res(sg, HS_Float(q) /\ keeps) ELSE Res(sw, HS_Float(q) /\ q.opset >= 14 /\ keeps)
+HS_Unknown(q) == q.rule # "fromhs" /\ q.ckind \in {"ginput", "ginit"}
+
+-----------------------------------------------------------------------------
 (* dispatch *)
 ParamsOf(f) == CASE f = "relus_clips" -> RC_Params(0)
       [] f = "min_max" -> MM_Params(0)
@@ -1103,6 +1194,7 @@ ParamsOf(f) == CASE f = "relus_clips" -> RC_Params(0)
       [] f = "unsqueeze2" -> UU_Params(0)
       [] f = "squeeze_reshape" -> SQ_Params(0)
       [] f = "matmul_reshape" -> BM_Params(0)
+      [] f = "hardswish" -> HS_Params(0)
 LhsOf(f, q) == CASE f = "relus_clips" -> RC_Lhs(q)
       [] f = "min_max" -> MM_Lhs(q)
       [] f = "no_op" -> NO_Lhs(q)
@@ -1128,6 +1220,7 @@ LhsOf(f, q) == CASE f = "relus_clips" -> RC_Lhs(q)
       [] f = "unsqueeze2" -> UU_Lhs(q)
       [] f = "squeeze_reshape" -> SQ_Lhs(q)
       [] f = "matmul_reshape" -> BM_Lhs(q)
+      [] f = "hardswish" -> HS_Lhs(q)
 MatchOf(f, q, d) == CASE f = "relus_clips" -> RC_Match(q, d)
       [] f = "min_max" -> MM_Match(q, d)
       [] f = "no_op" -> NO_Match(q, d)
@@ -1153,6 +1246,7 @@ MatchOf(f, q, d) == CASE f = "relus_clips" -> RC_Match(q, d)
       [] f = "unsqueeze2" -> TRUE
       [] f = "squeeze_reshape" -> SQ_Match(q, d)
       [] f = "matmul_reshape" -> BM_Match(q, d)
+      [] f = "hardswish" -> HS_Match(q, d)
 CheckOf(f, q, d) == CASE f = "relus_clips" -> RC_Check(q, d)
       [] f = "min_max" -> MM_Check(q, d)
       [] f = "no_op" -> "ok"
@@ -1178,6 +1272,7 @@ CheckOf(f, q, d) == CASE f = "relus_clips" -> RC_Check(q, d)
       [] f = "unsqueeze2" -> UU_Check(q, d)
       [] f = "squeeze_reshape" -> SQ_Check(q, d)
       [] f = "matmul_reshape" -> BM_Check(q, d)
+      [] f = "hardswish" -> HS_Check(q, d)
 RewriteOf(f, q, d) == CASE f = "relus_clips" -> RC_Rewrite(q, d)
       [] f = "min_max" -> MM_Rewrite(q, d)
       [] f = "no_op" -> NO_Rewrite(q, d)
@@ -1203,6 +1298,7 @@ RewriteOf(f, q, d) == CASE f = "relus_clips" -> RC_Rewrite(q, d)
       [] f = "unsqueeze2" -> UU_Rewrite(q, d)
       [] f = "squeeze_reshape" -> SQ_Rewrite(q, d)
       [] f = "matmul_reshape" -> BM_Rewrite(q, d)
+      [] f = "hardswish" -> HS_Rewrite(q, d)
 UnknownOf(f, q) == CASE f = "relus_clips" -> RC_Unknown(q)
       [] f = "min_max" -> MM_Unknown(q)
       [] f = "no_op" -> NO_Unknown(q)
@@ -1228,7 +1324,8 @@ UnknownOf(f, q) == CASE f = "relus_clips" -> RC_Unknown(q)
       [] f = "unsqueeze2" -> UU_Unknown(q)
       [] f = "squeeze_reshape" -> SQ_Unknown(q)
       [] f = "matmul_reshape" -> BM_Unknown(q)
-ExactOf(f, q) == IF f = "no_op" THEN NO_Exact(q) ELSE TRUE
+      [] f = "hardswish" -> HS_Unknown(q)
+ExactOf(f, q) == IF f = "no_op" THEN NO_Exact(q) ELSE IF f = "hardswish" THEN HS_Exact(q) ELSE TRUE
 
 \* derived facts of the host model that the harness needs to build it (declared shapes as the spec computes them)
 AuxOf(f, q) ==
@@ -1275,6 +1372,7 @@ DevsOf(f) == CASE f = "relus_clips" -> {"relu_clip_negmax", "clip_clip_disjoint"
                [] f = "gemm_matmul_add" -> {"gemm_matmul_add_ignores_attrs", "reshape_matmul_ignores_inner_shapes", "gemm_matmul_add_bias_shape"}
                [] f = "optional_bias" -> {"overridable_read_as_const"}
                [] f = "batchnorm" -> {"bn_gemm_beta"}
+               [] f = "hardswish" -> {"const_tolerance", "overridable_read_as_const", "hardswish_int_dtype", "hardswish_pre_opset14", "hardswish_const_rank"}
                [] f = "conv_affine" -> {"overridable_read_as_const", "conv_affine_scalar_rank"}
                [] f = "pad_conv" -> {"overridable_read_as_const", "pad_convinteger_zero_point", "autopad_ignores_dilation", "conv_affine_scalar_rank", "bn_gemm_beta"}
                [] f \in {"collapse_slices", "no_op_expand", "reshape_reshape", "unsqueeze2", "squeeze_reshape", "scatter_dynamic"} -> {"overridable_read_as_const"}
